@@ -183,7 +183,8 @@ def cross_families(tier: str):
         for es in shapes(n):
             for cf in cflag_variants(n)[1:]:  # constant False and constant True flags
                 i = next(iter(cf))
-                for seq in ((False,) * n, tuple(j == i for j in range(n)), tuple(j != i for j in range(n))):
+                one_hot_others = [tuple(j == k for j in range(n)) for k in range(n) if k != i] if n >= 3 else []
+                for seq in [(False,) * n, tuple(j == i for j in range(n)), tuple(j != i for j in range(n))] + one_hot_others:
                     if cf[i] is True and not seq[i]:
                         continue
                     for res in ("t" * n, "a" * n, ("mt" * n)[:n], ("am" * n)[:n]):
